@@ -28,13 +28,16 @@ def functions():
     return record(FOURIER, "fft", "ifft", "_fftc", "_ifftc") + record(UTIL, "_normalize_axes")
 
 
-def _ns():
+def _ns(real_resize=False):
+    """the whole real sigpy/fourier.py (helpers a change may add included); util.resize is its contract (C09), or - for the
+    end-to-end variants - the real util.resize"""
     util_ns = base_ns()
     src.load_module(UTIL, util_ns)
-    util_ns.update(resize=specs.spec_resize)
+    if not real_resize:
+        util_ns.update(resize=specs.spec_resize)
     util = Mod(util_ns, UTIL)
     ns = base_ns(util=util, interp=None, ceil=core.sym_ceil)
-    src.load_module(FOURIER, ns, only=["fft", "ifft", "_fftc", "_ifftc"])
+    src.load_module(FOURIER, ns)
     return Mod(ns, FOURIER)
 
 
@@ -76,9 +79,9 @@ def spec_dft(x, oshape, axes, center, norm, inverse):
     return SArr(shape, el, snp.CDT)
 
 
-def job_dft(fn, rank, axes, center, norm, with_oshape, in_dtype, timeout_ms):
+def job_dft(fn, rank, axes, center, norm, with_oshape, in_dtype, timeout_ms, real_resize=False):
     rec = record(FOURIER, fn)[0]
-    F = _ns()
+    F = _ns(real_resize)
     inverse = fn == "ifft"
 
     def mk():
@@ -93,7 +96,7 @@ def job_dft(fn, rank, axes, center, norm, with_oshape, in_dtype, timeout_ms):
         x = SArr.input("x", n, dtype=snp.as_dtype(in_dtype))
         return getattr(F, fn)(x, oshape=m, axes=None if axes is None else list(axes), center=center, norm=norm)
     results = explore(run, max_paths=64)
-    inst = "rank%d,axes=%s,center=%s,norm=%s,oshape=%s,dtype=%s" % (rank, axes, center, norm, with_oshape, in_dtype)
+    inst = "rank%d,axes=%s,center=%s,norm=%s,oshape=%s,dtype=%s%s" % (rank, axes, center, norm, with_oshape, in_dtype, ",real-resize" if real_resize else "")
 
     def post(r):
         if r.kind != "return":
